@@ -9,6 +9,17 @@ TRUST = ("Trusted base: CPython, Hypothesis, the reference models under lsfverif
          "'held' means held on the cases counted in the evidence file.")
 
 CHECKS = {
+    "C18": dict(
+        category="exploration",
+        technique="mutation-based property testing: Hypothesis-generated well-formed machines structurally mutated (and arbitrary JSON values / mutated queue events); validator totality, validator-accepts => runs without structural failure on the real engine, and poison isolation beside healthy executions under generated schedules",
+        text=("Well-formed machines (Pass/Task/Wait/Choice/Succeed/Fail, nested Parallel/Map) are mutated: dropped / wrongly typed / extra fields, retargeted Next/Default/StartAt (nowhere, other scope), "
+              "retagged Type, names duplicated across scopes, Next+End, End:false, empty States, Choice rule shapes, renamed states. (A) StateLint.validate must return a list of strings for every value incl. arbitrary JSON; "
+              "(B) mutants it accepts are stored with validate_asl on and executed: they must start, end, and not fail with States.Runtime or raise in the engine; (C) rejected mutants / arbitrary objects stored with "
+              "validate_asl off and mutated or arbitrary events on the shared and instance queues run beside a healthy in-flight execution: it and a later one succeed, nothing stays unacknowledged or queued, no exception "
+              "escapes a handler, an announced poison execution ends."),
+        design_ref="DESIGN.md section 5 C18",
+        note="Base machines are path-free apart from $.flag/$.items so that run-time failures are structural. " + TRUST,
+    ),
     "C16": dict(
         category="exploration",
         technique="boundary-value enumeration (complete window L-2..L+2 at every enforcement point) plus Hypothesis-sampled far sizes, with exact-length payload construction and the accept-iff-size<=L oracle on the real engine and API",
